@@ -67,6 +67,16 @@ func (a *c09Acc) good(construct string, in ssa.Instruction, msg string) {
 	}
 }
 
+// soften turns the violations recorded for a construct into undecided findings (used when another path showed that
+// the evidence rests on something the walker cannot follow).
+func (a *c09Acc) soften(construct, why string) {
+	for k, v := range a.m {
+		if k.construct == construct && v.bad != "" {
+			v.bad, v.unsure = "", why
+		}
+	}
+}
+
 func (a *c09Acc) flush(c *rt.Ctx) {
 	keys := append([]c09Key{}, a.order...)
 	sort.SliceStable(keys, func(i, j int) bool {
@@ -183,82 +193,191 @@ func c09Incomplete(c *rt.Ctx, what string, fn *ssa.Function, res an.H09Result) {
 }
 
 // ---------------------------------------------------------------------------------------------
-// G1: every non-nil result of aggregate is the instance verified under the pubkey parameter, and
-// is returned only on paths on which that verification returned nil.
+// G1/G2/G3 are decided on the paths of the entry point Aggregator.Aggregate with every in-package
+// callee, closure and bound method executed in place. The obligations are anchored on the mechanism —
+// calls through the receiver's verifyFunc and subs fields, tbls.ThresholdAggregate, entries of the
+// input set — not on the helper the per-validator step happens to live in (a method, a closure of
+// Aggregate, a method of a parameter struct).
 
-func c09G1(c *rt.Ctx) {
-	fn := c.Fn(c09FnAggLower)
-	c09HasField(c, "core/sigagg", "Aggregator", "verifyFunc")
-	pubkeyP := c09ParamOfType(c, fn, "core.PubKey")
-	if len(fn.Params) == 0 {
-		c.Bail("aggregate has no receiver")
+// c09AggAnchor resolves the entry point: the method of Aggregator that receives the input set.
+func c09AggAnchor(c *rt.Ctx) (fn *ssa.Function, recv, set an.H09SV) {
+	const setT = "map[core.PubKey][]core.ParSignedData"
+	fn = c.FnOpt(c09FnAggUpper)
+	if fn == nil || len(fn.Blocks) == 0 {
+		fn = nil
+		for _, f := range an.PkgFuncs(c.SSAPkg("core/sigagg")) {
+			if f.Parent() != nil || f.Signature.Recv() == nil || f.Object() == nil || !f.Object().Exported() ||
+				an.TypeName(f.Signature.Recv().Type()) != c09Agg {
+				continue
+			}
+			for _, p := range f.Params {
+				if c09TypeStr(p.Type()) == setT {
+					if fn != nil && fn != f {
+						c.Bail("two exported methods of Aggregator take the input set")
+					}
+					fn = f
+				}
+			}
+		}
+		if fn == nil {
+			c.Bail("entry point %s not found", c09FnAggUpper)
+		}
 	}
-	recv, pubkey := an.H09Param(fn.Params[0]), an.H09Param(pubkeyP)
+	setP := c09ParamOfType(c, fn, setT)
+	if len(fn.Params) == 0 || fn.Signature.Recv() == nil {
+		c.Bail("Aggregate has no receiver")
+	}
+	return fn, an.H09Param(fn.Params[0]), an.H09Param(setP)
+}
+
+func c09AggCfg(fn *ssa.Function) an.H09Config {
+	cfg := c09WalkCfg(fn)
+	cfg.MaxDepth = 8
+	cfg.InnerVisits = 2
+	cfg.MaxPaths = 60000
+	return cfg
+}
+
+// c09IsVerify: ev is a call through the verifyFunc field (isF) of the receiver (ofRecv).
+func c09IsVerify(st *an.H09State, e *an.H09Event, recv an.H09SV) (isF, ofRecv bool) {
+	if e.Kind != "call" || e.Inlined || len(e.Args) != 3 {
+		return false, false
+	}
+	cc := c09Common(e)
+	if cc == nil || cc.IsInvoke() || cc.StaticCallee() != nil {
+		return false, false
+	}
+	return c09FieldOfRecv(st, e.Callee, recv, c09Agg+".verifyFunc")
+}
+
+// c09IsPublication: ev is a call through the subs field.
+func c09IsPublication(st *an.H09State, ev *an.H09Event, recv an.H09SV) (isPub, ofRecv bool) {
+	if ev.Kind != "call" && ev.Kind != "go" && ev.Kind != "defer" {
+		return false, false
+	}
+	cc := c09Common(ev)
+	if cc == nil || cc.IsInvoke() || cc.StaticCallee() != nil {
+		return false, false
+	}
+	isF, of := c09FieldOfRecv(st, ev.Callee, recv, c09Agg+".subs")
+	if !isF && !an.FieldCall(c09Agg + ".subs")(cc) {
+		return false, false
+	}
+	return true, of || !isF
+}
+
+// c09PublishedMap: the map handed to a subscriber, seen through a checked Clone. status: "" ok,
+// otherwise why not (bad: positive evidence; unsure otherwise).
+func c09PublishedMap(st *an.H09State, ev *an.H09Event) (m an.H09SV, bad, unsure string) {
+	if len(ev.Args) != 3 {
+		return an.H09SV{}, "", "subscriber signature changed"
+	}
+	m = ev.Args[2]
+	if call, idx, ok := st.ResultOf(m); ok && idx == 0 {
+		if ce := st.CallEvent(call); ce != nil && !ce.Inlined && an.Static("core.SignedDataSet.Clone")(c09Common(ce)) && len(ce.Args) == 1 {
+			m = ce.Args[0]
+			if k, isNil := st.ErrOf(call); !k || !isNil {
+				return m, "clone of the output set is used although Clone failed (its error is not checked on this path)", ""
+			}
+		}
+	}
+	if _, ok := m.V.(*ssa.MakeMap); !ok {
+		return m, "", "the set handed to subscribers is not (a clone of) a map made by Aggregate or its helpers"
+	}
+	return m, "", ""
+}
+
+// c09VerifiedAs finds the verification of value v on the path. good: verified by the receiver's verifyFunc under
+// key with a nil verdict; otherwise bad (positive evidence) or unsure says why not.
+func c09VerifiedAs(st *an.H09State, root *ssa.Function, recv, key, v an.H09SV) (good bool, bad, unsure string) {
+	var hits []*an.H09Event
+	for i := range st.Trace {
+		e := &st.Trace[i]
+		if isF, _ := c09IsVerify(st, e, recv); isF && e.Args[2] == v {
+			hits = append(hits, e)
+		}
+	}
+	if len(hits) == 0 {
+		switch {
+		case c09SamePkgCallee(st, root, v):
+			return false, "", "the published value comes from an in-package call the checker did not follow"
+		case c09Opaque(st, v):
+			return false, "", "cannot follow the published value"
+		}
+		return false, "a value is published that was not passed to a.verifyFunc (the published object is not the verified one)", ""
+	}
+	for _, hit := range hits {
+		if _, ofRecv := c09FieldOfRecv(st, hit.Callee, recv, c09Agg+".verifyFunc"); !ofRecv {
+			bad = "verifyFunc is not the receiver's"
+			continue
+		}
+		if hit.Args[1] != key {
+			if c09Opaque(st, hit.Args[1]) || c09Opaque(st, key) {
+				unsure = "cannot tell whether the aggregate is verified under the key it is published for"
+			} else {
+				bad = "the aggregate is verified under a key other than the one it is published for"
+			}
+			continue
+		}
+		switch k, isNil := st.ErrOf(hit.SV); {
+		case k && isNil:
+			return true, "", ""
+		case k:
+			bad = "the value is published on a path on which a.verifyFunc returned an error"
+		default:
+			bad = "the value is published on a path on which the verdict of a.verifyFunc was not checked"
+		}
+	}
+	if bad != "" {
+		return false, bad, ""
+	}
+	return false, "", unsure
+}
+
+// G1: every value of the set handed to subscribers is the instance verified by the receiver's
+// verifyFunc under the key it is published for, on a path on which that verification returned nil.
+func c09G1(c *rt.Ctx) {
+	fn, recv, _ := c09AggAnchor(c)
+	c09HasField(c, "core/sigagg", "Aggregator", "verifyFunc")
+	c09HasField(c, "core/sigagg", "Aggregator", "subs")
 	construct := "aggregate non-nil result verified"
 	acc := newC09Acc()
-	nonNil, arity := 0, true
-	cfg := c09WalkCfg(fn)
-	cfg.OnReturn = func(st *an.H09State, ret *ssa.Return, vals []an.H09SV) {
-		if len(vals) != 2 {
-			arity = false
+	checked, pubs := 0, 0
+	cfg := c09AggCfg(fn)
+	cfg.OnEvent = func(st *an.H09State, ev *an.H09Event) {
+		if isPub, _ := c09IsPublication(st, ev, recv); !isPub {
 			return
 		}
-		v := vals[0]
-		if k, isNil := st.NilOf(v); k && isNil {
-			return
+		pubs++
+		m, _, _ := c09PublishedMap(st, ev)
+		if _, ok := m.V.(*ssa.MakeMap); !ok {
+			return // G2 reports what is wrong with the published set
 		}
-		nonNil++
-		var hit, other *an.H09Event
 		for i := range st.Trace {
 			e := &st.Trace[i]
-			if e.Kind != "call" || e.Inlined || len(e.Args) != 3 {
+			if e.Kind != "mapupdate" || e.Map != m {
 				continue
 			}
-			if isF, _ := c09FieldOfRecv(st, e.Callee, recv, c09Agg+".verifyFunc"); !isF {
-				continue
-			}
-			if e.Args[2] == v {
-				hit = e
-			} else {
-				other = e
-			}
-		}
-		switch {
-		case hit == nil && c09SamePkgCallee(st, fn, v):
-			acc.unsure(construct, ret, "the result comes from an in-package call the checker did not follow")
-		case hit == nil && c09Opaque(st, v):
-			acc.unsure(construct, ret, "cannot follow the returned value")
-		case hit == nil && other != nil:
-			acc.bad(construct, ret, "a non-nil result is returned that was not passed to a.verifyFunc (another value was verified: the published object is not the verified one)")
-		case hit == nil:
-			acc.bad(construct, ret, "a non-nil result is returned that was not passed to a.verifyFunc")
-		default:
-			if _, ofRecv := c09FieldOfRecv(st, hit.Callee, recv, c09Agg+".verifyFunc"); !ofRecv {
-				acc.bad(construct, ret, "verifyFunc is not the receiver's")
-				return
-			}
-			if hit.Args[1] != pubkey {
-				acc.bad(construct, ret, "the aggregate is verified under a key other than the pubkey parameter")
-				return
-			}
-			switch k, isNil := st.ErrOf(hit.SV); {
-			case k && isNil:
-				acc.good(construct, ret, "")
-			case k:
-				acc.bad(construct, ret, "the result is returned on a path on which a.verifyFunc returned an error")
+			checked++
+			good, bad, unsure := c09VerifiedAs(st, fn, recv, e.Key, e.Val)
+			switch {
+			case good:
+				acc.good(construct, e.In, "")
+			case bad != "":
+				acc.bad(construct, e.In, bad)
 			default:
-				acc.bad(construct, ret, "the result is returned on a path on which the verdict of a.verifyFunc was not checked")
+				acc.unsure(construct, e.In, unsure)
 			}
 		}
 	}
 	res := an.H09Walk(fn, cfg)
-	if !arity {
-		c.Bail("aggregate: unexpected result arity")
-	}
 	c09Incomplete(c, construct, fn, res)
 	acc.flush(c)
-	if nonNil == 0 && res.Complete {
-		c.Bail("aggregate never returns a non-nil result")
+	if checked == 0 && res.Complete {
+		if pubs == 0 {
+			c.Bail("no call through Aggregator.subs is reached from Aggregate")
+		}
+		c.Bail("no value is stored into a set handed to subscribers on the explored paths")
 	}
 }
 
@@ -266,20 +385,16 @@ func c09G1(c *rt.Ctx) {
 // G2: all-or-nothing publication.
 
 func c09G2(c *rt.Ctx) {
-	fn := c.Fn(c09FnAggUpper)
+	fn, recv, set := c09AggAnchor(c)
 	c09HasField(c, "core/sigagg", "Aggregator", "subs")
-	setP := c09ParamOfType(c, fn, "map[core.PubKey][]core.ParSignedData")
-	if len(fn.Params) == 0 {
-		c.Bail("Aggregate has no receiver")
-	}
-	recv, set := an.H09Param(fn.Params[0]), an.H09Param(setP)
 	subsM := an.FieldCall(c09Agg + ".subs")
 	pkg := c.SSAPkg("core/sigagg")
 	acc := newC09Acc()
 	covered := map[ssa.Instruction]bool{}
 	walked := map[*ssa.Function]bool{fn: true}
-	aggCalls := 0
-	cfg := c09WalkCfg(fn, c09FnAggLower)
+	verifies := 0
+	unfollowed := false
+	cfg := c09AggCfg(fn)
 	cfg.OnEvent = func(st *an.H09State, ev *an.H09Event) {
 		if ev.Kind != "call" && ev.Kind != "go" && ev.Kind != "defer" {
 			return
@@ -287,19 +402,16 @@ func c09G2(c *rt.Ctx) {
 		if ev.Inlined && ev.Target != nil {
 			walked[ev.Target] = true
 		}
-		cc := c09Common(ev)
-		if cc == nil || cc.IsInvoke() || cc.StaticCallee() != nil {
-			if cc != nil && an.Static(c09FnAggLower)(cc) {
-				aggCalls++
-			}
+		if isF, _ := c09IsVerify(st, ev, recv); isF {
+			verifies++
 			return
 		}
-		isF, ofRecv := c09FieldOfRecv(st, ev.Callee, recv, c09Agg+".subs")
-		if !isF && !subsM(cc) {
+		isPub, ofRecv := c09IsPublication(st, ev, recv)
+		if !isPub {
 			return
 		}
 		covered[ev.In] = true
-		if isF && !ofRecv {
+		if !ofRecv {
 			acc.unsure("Aggregate published set", ev.In, "subscribers of another aggregator are called")
 			return
 		}
@@ -307,7 +419,7 @@ func c09G2(c *rt.Ctx) {
 			acc.unsure("Aggregate published set", ev.In, "subscribers are started asynchronously/deferred")
 			return
 		}
-		c09Publication(acc, st, ev, recv, set)
+		c09Publication(acc, st, ev, fn, recv, set, &unfollowed)
 	}
 	res := an.H09Walk(fn, cfg)
 	c09Incomplete(c, "Aggregate published set", fn, res)
@@ -345,12 +457,21 @@ func c09G2(c *rt.Ctx) {
 	if len(covered) == 0 {
 		c.Bail("no call through Aggregator.subs is reached from Aggregate")
 	}
-	if aggCalls == 0 {
-		c.Bail("no call to a.aggregate is reached from Aggregate")
+	if verifies == 0 {
+		c.Bail("no call through Aggregator.verifyFunc is reached from Aggregate")
 	}
-	// the helpers the publication/aggregation was followed into belong to Aggregate only
+	// the helpers the publication was followed into belong to Aggregate only
 	for f := range walked {
 		if f == fn || f.Parent() != nil {
+			continue
+		}
+		publishes := false
+		for _, k := range an.Calls(f, func(*ssa.CallCommon) bool { return true }, true) {
+			if covered[k] {
+				publishes = true
+			}
+		}
+		if !publishes {
 			continue
 		}
 		for _, g := range an.PkgFuncs(pkg) {
@@ -363,49 +484,95 @@ func c09G2(c *rt.Ctx) {
 					if isCall && ci.Common().Value == op && walked[g] {
 						continue
 					}
-					publishes := false
-					for _, k := range an.Calls(f, func(*ssa.CallCommon) bool { return true }, true) {
-						if covered[k] {
-							publishes = true
-						}
-					}
-					if publishes {
-						c.Unsure("subscribers called from "+an.FuncName(f), posOf(in), "the publishing helper is also used outside Aggregate (from "+an.FuncName(g)+")")
-					}
+					c.Unsure("subscribers called from "+an.FuncName(f), posOf(in), "the publishing helper is also used outside Aggregate (from "+an.FuncName(g)+")")
 				}
 			}
 		}
 	}
+	if unfollowed {
+		// some insertion into the published set is fed from a container the walker does not model (its key or value
+		// cannot be followed): which validators were stored is unknown on every path, a "skipped validator" is no evidence
+		acc.soften("Aggregate: subscribers run only after every validator aggregated", "cannot tell which validators the insertions into the published set belong to")
+	}
 	acc.flush(c)
 }
 
+// c09PartialsEntry follows a published aggregate back to the entry of the input set whose partials were threshold
+// aggregated for it: v = X.SetSignature(SigToCore(sig)), sig = tbls.ThresholdAggregate(m), m filled from elements of
+// set[k]. It returns the entry steps met (nil when a link cannot be followed).
+func c09PartialsEntry(st *an.H09State, set, v an.H09SV) (entries []an.H09Step, followed bool) {
+	call, idx, ok := st.ResultOf(v)
+	if !ok || idx != 0 {
+		return nil, false
+	}
+	ce := st.CallEvent(call)
+	if ce == nil || ce.Inlined || len(ce.Args) != 1 {
+		return nil, false
+	}
+	if cc := c09Common(ce); !cc.IsInvoke() || cc.Method.Name() != "SetSignature" {
+		return nil, false
+	}
+	tcall, tidx, ok := st.ResultOf(c09PeelSV(st, ce.Args[0]))
+	if !ok || tidx != 0 {
+		return nil, false
+	}
+	te := st.CallEvent(tcall)
+	if te == nil || te.Inlined || len(te.Args) != 1 || !an.Static("tbls.ThresholdAggregate")(c09Common(te)) {
+		return nil, false
+	}
+	m := te.Args[0]
+	if _, isMake := m.V.(*ssa.MakeMap); !isMake {
+		return nil, false
+	}
+	n := 0
+	for i := range st.Trace {
+		e := &st.Trace[i]
+		if e.Kind != "mapupdate" || e.Map != m {
+			continue
+		}
+		n++
+		found := false
+		if p := st.PathOf(e.Key); p.Base == set && len(p.Steps) >= 2 && (p.Steps[0].Kind == "rangeval" || p.Steps[0].Kind == "index") {
+			entries, found = append(entries, p.Steps[0]), true
+		}
+		if elem, _, _ := c09ShareValue(st, e.Val); elem != nil && elem.Base == set && len(elem.Steps) >= 2 && (elem.Steps[0].Kind == "rangeval" || elem.Steps[0].Kind == "index") {
+			entries, found = append(entries, elem.Steps[0]), true
+		}
+		if !found {
+			return nil, false
+		}
+	}
+	return entries, true // no insertion on this path: an empty share map, nothing to bind
+}
+
+// c09KeyOfEntry: key is the key of the entry of the input set selected by step.
+func c09KeyOfEntry(st *an.H09State, set, key an.H09SV, step an.H09Step) bool {
+	if step.Kind == "index" {
+		return step.Idx == key
+	}
+	kp := st.PathOf(key)
+	return kp.Base == set && len(kp.Steps) == 1 && kp.Steps[0].Kind == "rangekey" && kp.Steps[0].Idx == step.Idx
+}
+
 // c09Publication decides the three G2 obligations for one publication on one path.
-func c09Publication(acc *c09Acc, st *an.H09State, ev *an.H09Event, recv, set an.H09SV) {
+func c09Publication(acc *c09Acc, st *an.H09State, ev *an.H09Event, root *ssa.Function, recv, set an.H09SV, unfollowed *bool) {
 	const (
 		pubC = "Aggregate published set"
 		upC  = "Aggregate output[pubkey] = checked aggregate(pubkey, set[pubkey])"
 		allC = "Aggregate: subscribers run only after every validator aggregated"
 	)
-	if len(ev.Args) != 3 {
-		acc.unsure(pubC, ev.In, "subscriber signature changed")
+	m, badWhy, unsureWhy := c09PublishedMap(st, ev)
+	switch {
+	case badWhy != "":
+		acc.bad(pubC, ev.In, badWhy)
 		return
-	}
-	m := ev.Args[2]
-	if call, idx, ok := st.ResultOf(m); ok && idx == 0 {
-		if ce := st.CallEvent(call); ce != nil && !ce.Inlined && an.Static("core.SignedDataSet.Clone")(c09Common(ce)) && len(ce.Args) == 1 {
-			m = ce.Args[0]
-			if k, isNil := st.ErrOf(call); !k || !isNil {
-				acc.bad(pubC, ev.In, "clone of the output set is used although Clone failed (its error is not checked on this path)")
-				return
-			}
-		}
-	}
-	if _, ok := m.V.(*ssa.MakeMap); !ok {
-		acc.unsure(pubC, ev.In, "the set handed to subscribers is not (a clone of) a map made by Aggregate or its helpers")
+	case unsureWhy != "":
+		acc.unsure(pubC, ev.In, unsureWhy)
 		return
 	}
 	acc.good(pubC, ev.In, "output set")
 	stored := map[an.H09SV]bool{}
+	unknownStore := false // an insertion whose key or value the walker cannot follow: it may be the aggregate of any validator
 	for i := range st.Trace {
 		e := &st.Trace[i]
 		switch e.Kind {
@@ -416,56 +583,39 @@ func c09Publication(acc *c09Acc, st *an.H09State, ev *an.H09Event, recv, set an.
 				}
 				continue
 			}
-			call, idx, ok := st.ResultOf(e.Val)
-			var ce *an.H09Event
-			if ok {
-				ce = st.CallEvent(call)
-			}
-			if ce == nil || idx != 0 || ce.Inlined || !an.Static(c09FnAggLower)(c09Common(ce)) {
-				acc.bad(upC, e.In, "a value that is not the result of a.aggregate is published")
+			// the value is a checked aggregate: verified under this key with a nil verdict (G1 states the same per value;
+			// here it decides which validators count as aggregated)
+			good, badWhy, unsureWhy := c09VerifiedAs(st, root, recv, e.Key, e.Val)
+			if !good {
+				if badWhy != "" {
+					acc.bad(upC, e.In, "the value stored in the published set is not an aggregate whose verification succeeded on this path: "+badWhy)
+				} else {
+					acc.unsure(upC, e.In, unsureWhy)
+					unknownStore, *unfollowed = true, true
+				}
 				continue
 			}
-			a := ce.Args
-			if len(a) != 4 {
-				acc.unsure(upC, e.In, "a.aggregate: unexpected arity")
-				continue
-			}
-			if a[0] != recv {
-				acc.unsure(upC, e.In, "aggregate of another aggregator")
-				continue
-			}
-			if e.Key != a[2] {
-				acc.bad(upC, e.In, "the aggregate is published under a key other than the one it was verified for")
-				continue
-			}
-			kp, vp := st.PathOf(a[2]), st.PathOf(a[3])
-			entry := "unknown"
+			// the key is a key of the input set and the partials aggregated for it are those of that entry
+			entries, followed := c09PartialsEntry(st, set, e.Val)
+			entry := "ok"
 			switch {
-			case vp.Base == set && len(vp.Steps) == 1 && vp.Steps[0].Kind == "rangeval":
-				if kp.Base == set && len(kp.Steps) == 1 && kp.Steps[0].Kind == "rangekey" && kp.Steps[0].Idx == vp.Steps[0].Idx {
-					entry = "ok"
-				} else {
+			case !followed && c09Opaque(st, e.Key):
+				entry = "unknown"
+			case !followed:
+				entry = "unfollowed"
+			}
+			for _, es := range entries {
+				if !c09KeyOfEntry(st, set, e.Key, es) {
 					entry = "mismatch"
 				}
-			case vp.Base == set && len(vp.Steps) == 1 && vp.Steps[0].Kind == "index":
-				if vp.Steps[0].Idx == a[2] {
-					entry = "ok"
-				} else {
-					entry = "mismatch"
-				}
-			case vp.Base == set:
-				entry = "mismatch"
 			}
 			switch entry {
 			case "mismatch":
-				acc.bad(upC, e.In, "a.aggregate does not receive the key and the partials of one entry of the input set")
+				acc.bad(upC, e.In, "the aggregate published under this key is not built from the partials of that key's entry of the input set (key and partials of different entries)")
 				continue
-			case "unknown":
-				acc.unsure(upC, e.In, "cannot follow the partials given to a.aggregate back to an entry of the input set")
-				continue
-			}
-			if k, isNil := st.ErrOf(call); !k || !isNil {
-				acc.bad(upC, e.In, "result of a.aggregate is published although it returned an error (or its error is unchecked) on this path")
+			case "unknown", "unfollowed":
+				acc.unsure(upC, e.In, "cannot follow the published aggregate back to the partials of one entry of the input set")
+				unknownStore, *unfollowed = true, true
 				continue
 			}
 			stored[e.Key] = true
@@ -548,11 +698,11 @@ func c09Publication(acc *c09Acc, st *an.H09State, ev *an.H09Event, recv, set an.
 		}
 		return -1
 	}
-	// aggregates(from, to, key): a.aggregate is called for key between two trace positions
+	// aggregates(from, to, key): an aggregate is verified for key between two trace positions
 	aggregates := func(from, to int, key an.H09SV) bool {
 		for i := from; i >= 0 && i < to && i < len(st.Trace); i++ {
 			e := &st.Trace[i]
-			if e.Kind == "call" && !e.Inlined && an.Static(c09FnAggLower)(c09Common(e)) && len(e.Args) == 4 && e.Args[2] == key {
+			if isF, _ := c09IsVerify(st, e, recv); isF && e.Args[1] == key {
 				return true
 			}
 		}
@@ -590,6 +740,8 @@ func c09Publication(acc *c09Acc, st *an.H09State, ev *an.H09Event, recv, set an.
 				case key.V == nil:
 					ok, unsure = false, "the loop over the input set does not bind the key"
 				case stored[key]:
+				case unknownStore:
+					ok, unsure = false, "cannot tell which validators the insertions into the published set belong to"
 				case isAggLoop:
 					ok, why = false, "a validator of the input set was skipped or failed (no checked aggregate stored for it) and subscribers are still reached: the set published is partial"
 				default:
@@ -625,13 +777,16 @@ func c09EvName(e *an.H09Event) string {
 // G3: the share map given to tbls.ThresholdAggregate.
 
 func c09G3(c *rt.Ctx) {
-	fn := c.Fn(c09FnAggLower)
+	fn, recv, set := c09AggAnchor(c)
 	c09HasField(c, "core/sigagg", "Aggregator", "threshold")
-	parSigsP := c09ParamOfType(c, fn, "[]core.ParSignedData")
-	if len(fn.Params) == 0 {
-		c.Bail("aggregate has no receiver")
+	// isElem: the access path denotes an element of the partials of one entry of the input set
+	isElem := func(base an.H09SV, steps []an.H09Step) bool {
+		return base == set && len(steps) == 2 && (steps[0].Kind == "rangeval" || steps[0].Kind == "index") && steps[1].Kind == "index"
 	}
-	recv, parSigs := an.H09Param(fn.Params[0]), an.H09Param(parSigsP)
+	isEntry := func(st *an.H09State, sv an.H09SV) bool {
+		p := st.PathOf(sv)
+		return p.Base == set && len(p.Steps) == 1 && (p.Steps[0].Kind == "rangeval" || p.Steps[0].Kind == "index")
+	}
 	taM := an.Static("tbls.ThresholdAggregate")
 	const (
 		mapC  = "aggregate share map"
@@ -648,7 +803,16 @@ func c09G3(c *rt.Ctx) {
 		return p.Base == recv && len(p.Steps) == 1 && p.Steps[0].Kind == "field" && p.Steps[0].Field == c09Agg+".threshold"
 	}
 	// atLeast: the assumption e establishes len(of) >= a.threshold, with len evaluated after trace index `after`.
-	atLeast := func(st *an.H09State, e *an.H09Event, of an.H09SV, after int) bool {
+	atLeast := func(st *an.H09State, e *an.H09Event, of func(an.H09SV) bool, after int) bool {
+		isLen := func(sv an.H09SV) bool {
+			cv, ok := sv.V.(*ssa.Call)
+			if !ok {
+				return false
+			}
+			b, ok := cv.Call.Value.(*ssa.Builtin)
+			ops := st.Ops(sv)
+			return ok && b.Name() == "len" && len(ops) == 1 && of(ops[0])
+		}
 		if e.Kind != "assume" || e.NilTest {
 			return false
 		}
@@ -660,7 +824,7 @@ func c09G3(c *rt.Ctx) {
 		var lenSV an.H09SV
 		var want bool
 		switch {
-		case st.IsLenOf(ops[0], of) && isThr(st, ops[1]):
+		case isLen(ops[0]) && isThr(st, ops[1]):
 			lenSV = ops[0]
 			switch bin.Op {
 			case token.LSS:
@@ -670,7 +834,7 @@ func c09G3(c *rt.Ctx) {
 			default:
 				return false
 			}
-		case st.IsLenOf(ops[1], of) && isThr(st, ops[0]):
+		case isLen(ops[1]) && isThr(st, ops[0]):
 			lenSV = ops[1]
 			switch bin.Op {
 			case token.GTR:
@@ -693,7 +857,7 @@ func c09G3(c *rt.Ctx) {
 		}
 		return false
 	}
-	cfg := c09WalkCfg(fn)
+	cfg := c09AggCfg(fn)
 	cfg.OnEvent = func(st *an.H09State, ev *an.H09Event) {
 		if ev.Kind != "call" || ev.Inlined || !taM(c09Common(ev)) {
 			return
@@ -730,21 +894,21 @@ func c09G3(c *rt.Ctx) {
 				if isShare {
 					elem = kp.Steps[:n-1]
 				}
-				fromPar := isShare && kp.Base == parSigs && len(elem) == 1 && elem[0].Kind == "index"
+				fromPar := isShare && isElem(kp.Base, elem)
 				keyOpaque := !isShare && c09Opaque(st, kp.Base)
 				// value: tblsconv.SigFromCore(elem.Signature()), conversion checked
 				valElem, valWhy, valUnsure := c09ShareValue(st, e.Val)
 				switch {
 				case fromPar:
 					acc.good(fillC, e.In, "")
-				case valElem != nil && valElem.Base == parSigs && len(valElem.Steps) == 1 && valElem.Steps[0].Kind == "index":
+				case valElem != nil && isElem(valElem.Base, valElem.Steps):
 					acc.good(fillC, e.In, "")
 				case (isShare && c09Opaque(st, kp.Base)) || (valElem != nil && c09Opaque(st, valElem.Base)) || (valElem == nil && valUnsure && keyOpaque):
-					acc.unsure(fillC, e.In, "cannot follow the inserted share back to an element of the partials parameter")
+					acc.unsure(fillC, e.In, "cannot follow the inserted share back to an element of the partials of an entry of the input set")
 				case valElem != nil || isShare:
-					acc.bad(fillC, e.In, "the share inserted is not taken from an element of the partials parameter")
+					acc.bad(fillC, e.In, "the share inserted is not taken from an element of the partials of an entry of the input set")
 				default:
-					acc.bad(fillC, e.In, "insertion into the share map is not fed by the elements of the partials parameter")
+					acc.bad(fillC, e.In, "insertion into the share map is not fed by the elements of the partials of an entry of the input set")
 				}
 				switch {
 				case keyOpaque:
@@ -794,10 +958,10 @@ func c09G3(c *rt.Ctx) {
 		good, pre := false, false
 		for i := range st.Trace {
 			e := &st.Trace[i]
-			if i > lastUp && atLeast(st, e, m, lastUp) {
+			if i > lastUp && atLeast(st, e, func(x an.H09SV) bool { return x == m }, lastUp) {
 				good = true
 			}
-			if atLeast(st, e, parSigs, -1) {
+			if atLeast(st, e, func(x an.H09SV) bool { return isEntry(st, x) }, -1) {
 				pre = true
 			}
 		}
@@ -816,7 +980,8 @@ func c09G3(c *rt.Ctx) {
 					return false, false
 				}
 				switch sv.V.(type) {
-				case *ssa.BinOp, *ssa.UnOp:
+				case *ssa.BinOp, *ssa.UnOp, *ssa.Call:
+					// arithmetic on the size, or a predicate/helper the walker did not execute that is given the size
 					for _, o := range st.Ops(sv) {
 						if f, _ := mentions(o, d+1); f {
 							return true, false
@@ -830,18 +995,35 @@ func c09G3(c *rt.Ctx) {
 				if e.Kind != "assume" || e.NilTest {
 					continue
 				}
+				if _, isCall := e.Atom.V.(*ssa.Call); isCall {
+					if f, d := mentions(e.Atom, 0); f && !d {
+						indirect = true // the verdict of a predicate over the size
+					}
+					continue
+				}
 				if _, isBin := e.Atom.V.(*ssa.BinOp); !isBin {
 					continue
 				}
 				direct := false
 				found := false
-				for _, o := range st.Ops(e.Atom) {
+				ops := st.Ops(e.Atom)
+				for _, o := range ops {
 					f, d := mentions(o, 0)
 					found = found || f
 					direct = direct || d
 				}
 				if found && !direct {
 					indirect = true
+				}
+				// the size compared with a bound the walker cannot follow (not positively "another bound")
+				if direct && len(ops) == 2 {
+					other := ops[0]
+					if st.IsLenOf(ops[0], m) {
+						other = ops[1]
+					}
+					if !isThr(st, other) && c09Opaque(st, other) {
+						indirect = true
+					}
 				}
 			}
 		}
@@ -931,10 +1113,13 @@ func c09ShareValue(st *an.H09State, v an.H09SV) (elem *an.H09Path, why string, u
 // c09NilOnlyVia: every path of fn that returns a possibly-nil error either returns the verdict of
 // the gate call itself or returns nil after the gate returned nil on that path. Non-nil errors
 // (error constructors, values known non-nil on the path) carry no obligation.
-func c09NilOnlyVia(c *rt.Ctx, fn *ssa.Function, gate an.Matcher, label string, stop ...string) {
+func c09NilOnlyVia(c *rt.Ctx, fn *ssa.Function, gate an.Matcher, label string, stop []string, opts ...func(*an.H09Config)) {
 	construct := fmt.Sprintf("%s success only via %s", an.FuncName(fn), label)
 	acc := newC09Acc()
 	cfg := c09WalkCfg(fn, stop...)
+	for _, o := range opts {
+		o(&cfg)
+	}
 	cfg.OnReturn = func(st *an.H09State, ret *ssa.Return, vals []an.H09SV) {
 		if len(vals) == 0 {
 			return
@@ -1023,6 +1208,16 @@ func c09Describe(st *an.H09State, sv an.H09SV) (desc string, opaque bool) {
 		if len(p.Steps) == 0 {
 			return d, o
 		}
+		// the content of a container built in the walked code (a slice grown by append, a map or array made in
+		// place, a merged value) is not modelled by the walker: what is read back from it is unknown, not "different"
+		switch b := p.Base.V.(type) {
+		case *ssa.MakeSlice, *ssa.MakeMap, *ssa.Alloc, *ssa.Phi, *ssa.Slice, *ssa.MakeInterface:
+			o = true
+		case *ssa.Call:
+			if bi, ok := b.Call.Value.(*ssa.Builtin); ok && bi.Name() == "append" {
+				o = true
+			}
+		}
 		switch last := p.Steps[len(p.Steps)-1]; last.Kind {
 		case "index":
 			return "an element/lookup (with another key or container) of " + d, o
@@ -1055,6 +1250,12 @@ func c09Describe(st *an.H09State, sv an.H09SV) (desc string, opaque bool) {
 		if ce := st.CallEvent(call); ce != nil {
 			if ce.Inlined {
 				return "result of a followed call", true
+			}
+			if cc := c09Common(ce); cc != nil && !cc.IsInvoke() && cc.StaticCallee() == nil {
+				if _, isBuiltin := cc.Value.(*ssa.Builtin); !isBuiltin {
+					// a call through a function value the walker could not resolve: what it returns is unknown
+					return fmt.Sprintf("result %d of a dynamic call", idx), true
+				}
 			}
 			return fmt.Sprintf("result %d of %s", idx, c09EvName(ce)), false
 		}
@@ -1102,7 +1303,30 @@ func c09ApplySpecs(acc *c09Acc, st *an.H09State, ev *an.H09Event, specs []c09Spe
 }
 
 func c09WParam(p *ssa.Parameter) func(*an.H09State, an.H09SV) bool {
-	want := an.H09Param(p)
+	return c09WSV(an.H09Param(p))
+}
+
+// c09WTailParam: the unique parameter of the given type of the function the root returned (Tail walks).
+func c09WTailParam(short string) func(*an.H09State, an.H09SV) bool {
+	return func(st *an.H09State, sv an.H09SV) bool {
+		fn := st.TailFn()
+		if fn == nil {
+			return false
+		}
+		var found *ssa.Parameter
+		for _, p := range fn.Params {
+			if c09TypeStr(p.Type()) == short {
+				if found != nil {
+					return false
+				}
+				found = p
+			}
+		}
+		return found != nil && c09WSV(an.H09Param(found))(st, sv)
+	}
+}
+
+func c09WSV(want an.H09SV) func(*an.H09State, an.H09SV) bool {
 	return func(st *an.H09State, sv an.H09SV) bool {
 		if sv == want {
 			return true
@@ -1157,10 +1381,13 @@ func c09WResultOf(m an.Matcher, idx int, args ...func(*an.H09State, an.H09SV) bo
 
 // c09Sinks walks fn and applies the specs at every executed call selected by sink. It returns the
 // static sink instructions reached.
-func c09Sinks(c *rt.Ctx, fn *ssa.Function, sink an.Matcher, what string, stop []string, specs func(ev *an.H09Event) []c09Spec) map[ssa.Instruction]bool {
+func c09Sinks(c *rt.Ctx, fn *ssa.Function, sink an.Matcher, what string, stop []string, specs func(ev *an.H09Event) []c09Spec, opts ...func(*an.H09Config)) map[ssa.Instruction]bool {
 	acc := newC09Acc()
 	seen := map[ssa.Instruction]bool{}
 	cfg := c09WalkCfg(fn, stop...)
+	for _, o := range opts {
+		o(&cfg)
+	}
 	cfg.OnEvent = func(st *an.H09State, ev *an.H09Event) {
 		if ev.Kind != "call" || ev.Inlined {
 			return
@@ -1201,67 +1428,30 @@ func c09G4(c *rt.Ctx) {
 		tRoot  = "github.com/attestantio/go-eth2-client/spec/phase0.Root"
 		tSig   = "github.com/attestantio/go-eth2-client/spec/phase0.BLSSignature"
 	)
-	// (a) the function NewVerifier returns
-	nv := c.Fn("core/sigagg.NewVerifier")
-	var vfn *ssa.Function
-	for _, r := range c09Returns(nv) {
-		if len(r.Vals) != 1 || r.Vals[0] == nil {
-			c.Unsure("NewVerifier returns the verifying closure", posOf(r.Ret), "returned function value cannot be resolved")
-			continue
-		}
-		var f *ssa.Function
-		os := c09Origins(r.Vals[0])
-		if len(os) == 1 && os[0].Kind == "func" {
-			switch x := os[0].Val.(type) {
-			case *ssa.MakeClosure:
-				f, _ = x.Fn.(*ssa.Function)
-			case *ssa.Function:
-				f = x
-			}
-		}
-		switch {
-		case f == nil:
-			c.Unsure("NewVerifier returns the verifying closure", posOf(r.Ret), "returned function value cannot be resolved")
-		case vfn != nil && vfn != f:
-			c.Unsure("NewVerifier returns the verifying closure", posOf(r.Ret), "NewVerifier returns different functions")
-		default:
-			vfn = f
-		}
-	}
-	// a method value (`verifier{…}.verify`) is returned through a synthetic bound-method wrapper: analyse the method
-	for i := 0; i < 3 && vfn != nil && vfn.Synthetic != ""; i++ {
-		var callee *ssa.Function
-		for _, in := range an.Instrs(vfn, false) {
-			if ci, ok := in.(ssa.CallInstruction); ok {
-				if f := ci.Common().StaticCallee(); f != nil && len(f.Blocks) > 0 {
-					callee = f
-				}
-			}
-		}
-		if callee == nil {
-			break
-		}
-		vfn = callee
-	}
-	if vfn == nil || len(vfn.Blocks) == 0 {
-		c.Bail("NewVerifier: cannot resolve the function returned")
-	}
+	// (a) the function NewVerifier returns: NewVerifier is executed and the function value it returns (a closure, a
+	// bound method, a named function; closures it captured included) is entered with symbolic arguments.
 	{
-		pubkeyP := c09ParamOfType(c, vfn, "core.PubKey")
-		dataP := c09ParamOfType(c, vfn, "core.SignedData")
+		nv := c.Fn("core/sigagg.NewVerifier")
+		tail := func(cfg *an.H09Config) {
+			cfg.Tail = true
+			cfg.OnTailFail = func(_ *an.H09State, ret *ssa.Return) {
+				c.Unsure("NewVerifier returns the verifying closure", posOf(ret), "returned function value cannot be resolved")
+			}
+		}
 		gateM := an.Static("core.VerifyEth2SignedData")
-		gates := c09Sinks(c, vfn, gateM, "core.VerifyEth2SignedData", c09ChainStop, func(*an.H09Event) []c09Spec {
+		gates := c09Sinks(c, nv, gateM, "core.VerifyEth2SignedData", c09ChainStop, func(*an.H09Event) []c09Spec {
 			return []c09Spec{
 				{Construct: "NewVerifier→VerifyEth2SignedData pubkey", Arg: 3, Desc: "tblsconv.PubkeyFromCore(pubkey)",
-					Want:    c09WResultOf(an.Static("tbls/tblsconv.PubkeyFromCore"), 0, c09WParam(pubkeyP)),
+					Want:    c09WResultOf(an.Static("tbls/tblsconv.PubkeyFromCore"), 0, c09WTailParam("core.PubKey")),
 					Checked: "NewVerifier→VerifyEth2SignedData pubkey", CheckedMsg: "pubkey conversion error is not checked: "},
-				{Construct: "NewVerifier→VerifyEth2SignedData data", Arg: 2, Desc: "the data parameter (asserted to core.Eth2SignedData)", Want: c09WParam(dataP)},
+				{Construct: "NewVerifier→VerifyEth2SignedData data", Arg: 2, Desc: "the data parameter (asserted to core.Eth2SignedData)", Want: c09WTailParam("core.SignedData")},
 			}
-		})
+		}, tail)
 		if len(gates) > 0 {
-			c.Good("NewVerifier returns the verifying closure", vfn.Pos(), "")
+			c.Good("NewVerifier returns the verifying closure", nv.Pos(), "")
 		}
-		c09NilOnlyVia(c, vfn, gateM, "core.VerifyEth2SignedData", c09ChainStop...)
+		tailQuiet := func(cfg *an.H09Config) { cfg.Tail = true }
+		c09NilOnlyVia(c, nv, gateM, "core.VerifyEth2SignedData", c09ChainStop, tailQuiet)
 	}
 	// (b) core.VerifyEth2SignedData
 	{
@@ -1284,7 +1474,7 @@ func c09G4(c *rt.Ctx) {
 				{Construct: pre + "pubkey", Arg: 6, Desc: "the pubkey parameter", Want: c09WParam(pubkeyP)},
 			}
 		})
-		c09NilOnlyVia(c, fn, gateM, "signing.Verify", c09ChainStop...)
+		c09NilOnlyVia(c, fn, gateM, "signing.Verify", c09ChainStop)
 	}
 	// (c) signing.Verify
 	var gdFn *ssa.Function
@@ -1331,7 +1521,7 @@ func c09G4(c *rt.Ctx) {
 				{Construct: pre2 + "signature", Arg: 2, Desc: "the signature parameter", Want: c09WParam(sigP)},
 			}
 		})
-		c09NilOnlyVia(c, fn, tvM, "tbls.Verify", c09ChainStop...)
+		c09NilOnlyVia(c, fn, tvM, "tbls.Verify", c09ChainStop)
 	}
 	// (d) GetDataRoot
 	var domFn *ssa.Function
@@ -1457,7 +1647,17 @@ func c09DataRootReturns(c *rt.Ctx, fn *ssa.Function, rootP *ssa.Parameter, domM 
 				}
 			case "store":
 				if e.Key == obj {
-					clean = false // whole-value assignment
+					// whole-value assignment: followed when the value is a literal assembled in a temporary
+					// (`sd := SigningData{…}; sd.HashTreeRoot()`), otherwise not
+					snap, ok := st.FieldsOf(e.Val)
+					if !ok || hashAt >= 0 {
+						clean = hashAt >= 0 && clean
+						continue
+					}
+					fields = map[string]an.H09SV{}
+					for idx, fv := range snap {
+						fields[an.FieldKey(obj.V.Type(), idx)] = fv
+					}
 					continue
 				}
 				fa, ok := e.Key.V.(*ssa.FieldAddr)
